@@ -27,7 +27,7 @@ func init() {
 			"NOT decided: numerical agreement with the Prometheus engine (window selection, extrapolation, staleness, label sets), which quantifies over sample values.",
 		Assumptions: commonAssumptions,
 		Technique:   "static analysis: registry/table agreement from the typed AST (emitted names ⊆ registered names)",
-		Rules:       "C18.R1 R2",
+		Rules:       "C18.R1 R2 R3 R4",
 	}
 }
 
@@ -639,7 +639,9 @@ func windowMembership(c *an.Ctx, id, X string, floor int) {
 	r.Floor(floor, "boolean expressions ordering a time against Window() bounds held in locals")
 }
 
-var c18Exceptions = map[string]string{}
+var c18Exceptions = map[string]string{
+	"aggregateFns[parser.AVG] → mean @ NewProcessors(dispatch)": "mean never reaches the call processor: QuerySchema.rewriteBaseCallTransformExprCall replaces it by sum/count (meanToSumDivCount), both dispatched",
+}
 
 func c18(c *an.Ctx) {
 	const T = "lib/util/lifted/promql2influxql"
@@ -668,6 +670,35 @@ func c18(c *an.Ctx) {
 			}
 		}
 	}
+	// the executor's call processor dispatches on the registry of aggregate operators first and on
+	// a switch over literal names second: together they are its "registry"
+	const disp = "engine/executor:NewProcessors(dispatch)"
+	regNames[disp] = map[string]bool{}
+	if o := obj(r, "engine/executor:RegistryAggOp"); o != nil {
+		for _, cs := range c.P.CallsTo(o) {
+			if len(cs.Call.Args) == 0 {
+				continue
+			}
+			if tv, ok := cs.Pkg.TypesInfo.Types[cs.Call.Args[0]]; ok && tv.Value != nil && tv.Value.Kind() == constant.String {
+				regNames[disp][constant.StringVal(tv.Value)] = true
+				nreg++
+			}
+		}
+	}
+	if f := fn(r, "engine/executor:NewProcessors"); f != nil {
+		ast.Inspect(f.Body, func(m ast.Node) bool {
+			cc, ok := m.(*ast.CaseClause)
+			if !ok {
+				return true
+			}
+			for _, e := range cc.List {
+				if tv, ok := f.Info.Types[e]; ok && tv.Value != nil && tv.Value.Kind() == constant.String {
+					regNames[disp][constant.StringVal(tv.Value)] = true
+				}
+			}
+			return true
+		})
+	}
 	if nreg < 60 {
 		r.Fail("registries", "-", "only %d registrations found, at least 60 confirmed by hand", nreg)
 	}
@@ -678,9 +709,10 @@ func c18(c *an.Ctx) {
 		"vectorMathFunctions":    {queryPkg + ":RegistryMaterializeFunction"},
 		"vectorLabelFunctions":   {queryPkg + ":RegistryLabelFunction", "engine/executor:RegistryLabelFunction"},
 		"vectorTimeFunctions":    {queryPkg + ":RegistryPromTimeFunction", "engine/executor:RegistryPromTimeFunction"},
+		"aggregateFns":           {queryPkg + ":RegisterAggregateFunction", disp},
 	}
 	// emitted names: `name:` values of the transpiler tables
-	tables := []string{"rangeVectorFunctions", "instantVectorFunctions", "vectorMathFunctions", "vectorLabelFunctions", "vectorTimeFunctions"}
+	tables := []string{"rangeVectorFunctions", "instantVectorFunctions", "vectorMathFunctions", "vectorLabelFunctions", "vectorTimeFunctions", "aggregateFns"}
 	r.Except("vectorSortFunctions", "its names (sort_prom, …) are markers consumed by transpileSort, which emits SortFields and never a call")
 	n := 0
 	for _, pkg := range c.P.Pkgs {
@@ -712,8 +744,10 @@ func c18(c *an.Ctx) {
 						continue
 					}
 					promName := ""
-					if tv, ok := pkg.TypesInfo.Types[kv.Key]; ok && tv.Value != nil {
+					if tv, ok := pkg.TypesInfo.Types[kv.Key]; ok && tv.Value != nil && tv.Value.Kind() == constant.String {
 						promName = constant.StringVal(tv.Value)
+					} else {
+						promName = types.ExprString(kv.Key)
 					}
 					inner, ok := kv.Value.(*ast.CompositeLit)
 					if !ok {
@@ -754,6 +788,222 @@ func c18(c *an.Ctx) {
 	r.Floor(40, "transpiler function table entries")
 	_ = types.Universe
 	c18counterOnlyClamp(c)
+	c18kernelFlags(c)
+	c18operatorTables(c)
+}
+
+// c18operatorTables — C18.R4.  The transpiler maps a PromQL binary operator to the InfluxQL token
+// of the same meaning through two tables.  The correspondence is semantic (it is PromQL's and
+// InfluxQL's definition of the symbols, not this code's shape): any other pairing evaluates a
+// different operator.
+func c18operatorTables(c *an.Ctx) {
+	const T = "lib/util/lifted/promql2influxql"
+	r := c.Rule("C18.R4", "K-TABLES", T+": arithBinOps / compBinOps pair every PromQL operator with the InfluxQL token of the same meaning")
+	want := map[string]map[string]string{
+		"arithBinOps": {"ADD": "ADD", "SUB": "SUB", "MUL": "MUL", "DIV": "DIV", "MOD": "MOD", "POW": "POW_OP", "ATAN2": "ATAN2_OP"},
+		"compBinOps":  {"EQLC": "EQ", "NEQ": "NEQ", "GTR": "GT", "LSS": "LT", "GTE": "GTE", "LTE": "LTE"},
+	}
+	constName := func(info *types.Info, e ast.Expr) string {
+		switch x := ast.Unparen(e).(type) {
+		case *ast.SelectorExpr:
+			if o, ok := info.Uses[x.Sel].(*types.Const); ok {
+				return o.Name()
+			}
+		case *ast.Ident:
+			if o, ok := info.Uses[x].(*types.Const); ok {
+				return o.Name()
+			}
+		}
+		return ""
+	}
+	n := 0
+	seen := map[string]map[string]bool{}
+	for _, pkg := range c.P.Pkgs {
+		if !strings.HasSuffix(pkg.PkgPath, T) {
+			continue
+		}
+		for _, file := range pkg.Syntax {
+			for _, d := range file.Decls {
+				gd, ok := d.(*ast.GenDecl)
+				if !ok {
+					continue
+				}
+				for _, sp := range gd.Specs {
+					vs, ok := sp.(*ast.ValueSpec)
+					if !ok || len(vs.Names) != 1 || len(vs.Values) != 1 || want[vs.Names[0].Name] == nil {
+						continue
+					}
+					cl, ok := vs.Values[0].(*ast.CompositeLit)
+					if !ok {
+						continue
+					}
+					tbl := vs.Names[0].Name
+					seen[tbl] = map[string]bool{}
+					for _, el := range cl.Elts {
+						kv, ok := el.(*ast.KeyValueExpr)
+						if !ok {
+							continue
+						}
+						k, v := constName(pkg.TypesInfo, kv.Key), constName(pkg.TypesInfo, kv.Value)
+						n++
+						seen[tbl][k] = true
+						w, known := want[tbl][k]
+						switch {
+						case k == "" || v == "":
+							r.Fail(tbl+": entry "+types.ExprString(kv.Key), c.P.Pos(kv.Pos()), "%s entry %s: %s is not a pair of operator constants", tbl, types.ExprString(kv.Key), types.ExprString(kv.Value))
+						case !known:
+							r.Fail(tbl+": "+k+" (unknown operator)", c.P.Pos(kv.Pos()), "%s maps the PromQL operator %s, whose InfluxQL counterpart has not been confirmed (add it to the table of C18.R4 after review)", tbl, k)
+						case v != w:
+							r.Fail(tbl+": "+k+" → "+v, c.P.Pos(kv.Pos()), "%s maps PromQL %s to InfluxQL %s; the operator of the same meaning is %s", tbl, k, v, w)
+						}
+					}
+				}
+			}
+		}
+	}
+	r.AddSites(n)
+	for tbl, ks := range want {
+		if seen[tbl] == nil {
+			r.Fail("missing table "+tbl, "-", "operator table %s not found in %s", tbl, T)
+			continue
+		}
+		for _, k := range keysOfStr(ks) {
+			if !seen[tbl][k] {
+				r.Fail(tbl+": "+k+" missing", "-", "%s no longer maps the PromQL operator %s: an expression using it is rejected or falls through to another path", tbl, k)
+			}
+		}
+	}
+}
+
+func keysOfStr(m map[string]string) []string {
+	var out []string
+	for k := range m {
+		out = append(out, k)
+	}
+	sort.Strings(out)
+	return out
+}
+
+// c18kernelFlags — C18.R3.  A range-vector function is evaluated by the store-side registry
+// (engine:RegistryPromFunction(name, &op{}) → op.CreateRoutine → kernel constructor) when it is
+// applied to a selector, and by the executor-side map promSubqueryFunc[name] = constructor(...)
+// when it is applied to a sub-query.  Both build their kernel from a constructor with boolean
+// mode flags (rate(isRate, isCounter), irate(isRate), predictLinear(isDeriv), …).  The same
+// name must be given the same flags on both sides, the rate family must have Prometheus's
+// (rate: per-second + counter, increase: counter, delta: neither, irate: per-second, idelta:
+// not), and every name of the store-side registry has a sub-query kernel.
+func c18kernelFlags(c *an.Ctx) {
+	r := c.Rule("C18.R3", "K-TABLES(siblings)", "store-side and sub-query registries of the range-vector functions agree on names and on the boolean mode flags of the shared kernels (rate/increase/delta, irate/idelta, deriv/predict_linear)")
+	// leading bool literals of the first call, in evaluation order, that has one
+	flagsOf := func(info *types.Info, root ast.Node) (string, bool) {
+		res, found := "", false
+		ast.Inspect(root, func(m ast.Node) bool {
+			ce, ok := m.(*ast.CallExpr)
+			if !ok || found {
+				return !found
+			}
+			var bs []string
+			for _, a := range ce.Args {
+				tv, ok := info.Types[a]
+				if !ok || tv.Value == nil || tv.Value.Kind() != constant.Bool {
+					break
+				}
+				bs = append(bs, tv.Value.String())
+			}
+			if len(bs) > 0 {
+				res, found = strings.Join(bs, ","), true
+				return false
+			}
+			return true
+		})
+		return res, found
+	}
+	store := map[string]string{}
+	storeNames := map[string]bool{}
+	if reg := obj(r, "engine:RegistryPromFunction"); reg != nil {
+		for _, cs := range c.P.CallsTo(reg) {
+			if len(cs.Call.Args) != 2 {
+				continue
+			}
+			tv, ok := cs.Pkg.TypesInfo.Types[cs.Call.Args[0]]
+			if !ok || tv.Value == nil || tv.Value.Kind() != constant.String {
+				continue
+			}
+			name := constant.StringVal(tv.Value)
+			storeNames[name] = true
+			// &op{} → method CreateRoutine of op
+			T := cs.Pkg.TypesInfo.TypeOf(cs.Call.Args[1])
+			if T == nil {
+				continue
+			}
+			m, _, _ := types.LookupFieldOrMethod(T, true, cs.Pkg.Types, "CreateRoutine")
+			mf, _ := m.(*types.Func)
+			if src := c.P.Src(mf); src != nil && src.Decl.Body != nil {
+				if fl, ok := flagsOf(src.Pkg.TypesInfo, src.Decl.Body); ok {
+					store[name] = fl
+				}
+			}
+		}
+	}
+	sub := map[string]string{}
+	subNames := map[string]bool{}
+	subPos := map[string]string{}
+	if mp := obj(r, "engine/executor:promSubqueryFunc"); mp != nil {
+		for _, st := range c.P.StoresTo(mp) {
+			as, ok := st.Node.(*ast.AssignStmt)
+			if !ok || len(as.Lhs) != 1 || len(as.Rhs) != 1 || st.Caller == nil {
+				continue
+			}
+			ix, ok := as.Lhs[0].(*ast.IndexExpr)
+			if !ok {
+				continue
+			}
+			tv, ok := st.Caller.Pkg.TypesInfo.Types[ix.Index]
+			if !ok || tv.Value == nil || tv.Value.Kind() != constant.String {
+				continue
+			}
+			name := constant.StringVal(tv.Value)
+			subNames[name] = true
+			subPos[name] = c.P.Pos(as.Pos())
+			if fl, ok := flagsOf(st.Caller.Pkg.TypesInfo, as.Rhs[0]); ok {
+				sub[name] = fl
+			}
+		}
+	}
+	r.AddSites(len(storeNames) + len(subNames))
+	if len(storeNames) < 20 || len(subNames) < 20 {
+		r.Fail("floor:registries", "-", "only %d store-side and %d sub-query registrations resolved, 22 each confirmed by hand", len(storeNames), len(subNames))
+		return
+	}
+	for _, name := range keysOfMap(storeNames) {
+		if !subNames[name] {
+			r.Fail("no sub-query kernel: "+name, "-", "%s is registered with the store-side registry but has no entry in promSubqueryFunc: %s(x[r:s]) cannot be evaluated", name, name)
+		}
+	}
+	want := map[string]string{"rate_prom": "true,true", "increase": "false,true", "delta_prom": "false,false", "irate_prom": "true", "idelta_prom": "false", "deriv": "true", "predict_linear": "false"}
+	n := 0
+	for _, name := range keysOfMap(subNames) {
+		a, okA := store[name]
+		b, okB := sub[name]
+		if okA && okB {
+			n++
+			if a != b {
+				r.Fail("flags differ: "+name, subPos[name], "%s is built with the mode flags (%s) for selectors (store side) and (%s) for sub-queries: the two evaluations of the same function disagree", name, a, b)
+			}
+		}
+		if w, ok := want[name]; ok {
+			if okA && a != w {
+				r.Fail("store flags: "+name, "-", "store-side kernel of %s is built with flags (%s), Prometheus's semantics need (%s) [rate(isRate,isCounter) / irate(isRate) / linear(isDeriv)]", name, a, w)
+			}
+			if okB && b != w {
+				r.Fail("sub-query flags: "+name, subPos[name], "sub-query kernel of %s is built with flags (%s), Prometheus's semantics need (%s) [rate(isRate,isCounter) / irate(isRate) / linear(isDeriv)]", name, b, w)
+			}
+			if !okA || !okB {
+				r.Fail("flags not found: "+name, "-", "the kernel constructor of %s no longer takes literal mode flags on both sides (store %v, sub-query %v): the table cannot be compared", name, okA, okB)
+			}
+		}
+	}
+	r.AddSites(n)
 }
 
 // c18counterOnlyClamp — C18.R2.  rate/increase/delta share Prometheus's extrapolatedRate: the
